@@ -45,6 +45,7 @@ type Object struct {
 	label string
 	input bool // harness input buffer (C02/C04 write barrier)
 	frozen bool // read-only snapshot (SliceToArrayPointer)
+	nowrite bool // verifFreeze: stores are barrier violations
 }
 
 type PtrV struct {
